@@ -247,7 +247,7 @@ def apply_step(st: Store, sn: str, i: int, ev: dict, stp: str, res: dict, ctx: d
         yield out(st2, ("OK",))
         return
     try:
-        if op == "noop" or op == "check":
+        if op in ("noop", "check", "capability", "namespace", "lsub"):
             _sync(st2, sn)
             yield out(st2, ("OK",))
         elif op == "expunge":
